@@ -445,10 +445,10 @@ impl Prop for Prims {
     }
     fn streams(&self) -> Vec<Stream> {
         match self.0 {
-            Which::Distance => vec![Stream::new("exhaustive", 341, 1555), Stream::new("random", 24000, 240000)],
-            Which::Jaccard => vec![Stream::new("exhaustive", 341, 1365), Stream::new("random", 32000, 320000)],
-            Which::Index => vec![Stream::new("stores", 6400, 64000), Stream::new("corpus", 96, 960)],
-            Which::Unchecked => vec![Stream::new("direct", 24000, 240000).asan(24000).miri(6), Stream::new("store", 6400, 64000).asan(6400).miri(3)],
+            Which::Distance => vec![Stream::new("exhaustive", 341, 1555), Stream::new("random", 24000, 720000)],
+            Which::Jaccard => vec![Stream::new("exhaustive", 341, 1365), Stream::new("random", 32000, 1600000)],
+            Which::Index => vec![Stream::new("stores", 6400, 320000), Stream::new("corpus", 96, 2880)],
+            Which::Unchecked => vec![Stream::new("direct", 24000, 1200000).asan(24000).miri(6), Stream::new("store", 6400, 320000).asan(6400).miri(3)],
         }
     }
     fn floors(&self) -> Vec<(&'static str, u64, u64)> {
